@@ -563,6 +563,67 @@ class SDec(_SymMixin, Decimal):
         self.t = t if isinstance(t, z3.ExprRef) else real(q(t))
         return self
 
+    # Decimal's own methods are C code that would read the NaN the proxy is built on: the ones
+    # with a meaning over exact reals are modelled, every other one refuses explicitly
+    def scaleb(self, other: Any, context: Any = None) -> Any:
+        if is_sym(other):
+            raise NotEncodable("Decimal.scaleb by a symbolic amount")
+        return SDec(self.t * q(Fraction(10) ** int(other)))
+
+    def copy_abs(self) -> Any:
+        return abs(self)
+
+    def copy_negate(self) -> Any:
+        return -self
+
+    def copy_sign(self, other: Any, context: Any = None) -> Any:
+        neg = ctx().decide(real(term(other)) < 0)
+        a = abs(self)
+        return -a if neg else a
+
+    def is_zero(self) -> bool:
+        return ctx().decide(self.t == 0)
+
+    def is_signed(self) -> bool:
+        return ctx().decide(self.t < 0)
+
+    def is_nan(self) -> bool:
+        return False
+
+    is_qnan = is_snan = is_infinite = is_nan
+
+    def is_finite(self) -> bool:
+        return True
+
+    def normalize(self, context: Any = None) -> Any:
+        return self
+
+    def sqrt(self, context: Any = None) -> Any:
+        return SDec(real(term(sym_sqrt(SReal(self.t)))))
+
+    def fma(self, other: Any, third: Any, context: Any = None) -> Any:
+        return self * other + third
+
+    def max(self, other: Any, context: Any = None) -> Any:
+        return other if ctx().decide(real(term(other)) > self.t) else self
+
+    def min(self, other: Any, context: Any = None) -> Any:
+        return other if ctx().decide(real(term(other)) < self.t) else self
+
+
+def _refuse(name: str) -> Any:
+    def method(self: Any, *a: Any, **k: Any) -> Any:
+        raise NotEncodable(f"Decimal.{name} of a symbolic Decimal has no model")
+    method.__name__ = name
+    return method
+
+
+for _name in dir(Decimal):
+    if _name.startswith("_") or _name in SDec.__dict__ or _name in _SymMixin.__dict__:
+        continue
+    if callable(getattr(Decimal, _name)) and _name not in ("real", "imag", "conjugate", "from_float"):
+        setattr(SDec, _name, _refuse(_name))
+
 
 # --------------------------------------------------------------------------------------
 # powers, roots, logs
